@@ -64,8 +64,17 @@ def run_case(case, col=None):
     ctxs = diff.ctx_list(case)
     explicit = sorted({d["slot"] for d in recipe.get("vars", {}).values() if d.get("slot") is not None})
     variants = []  # (cfg, teal, prog)
+    prior = case.get("prior")
     for cfg in case["configs"]:
-        oc = diff.compile_recipe(recipe, cfg)
+        opt_obj = None
+        if prior is not None and cfg.get("scratch_slots") and cfg.get("reuse_options"):
+            # a user naturally re-uses one OptimizeOptions object for several programs (Router.compile_program does it
+            # for approval and clear-state): compile another program with the same object first
+            opt_obj = diff.optimize_of(cfg)
+            diff.compile_recipe(prior, cfg, optimize_obj=opt_obj)
+            if col:
+                col.cls("variant:options-object-reused-after-another-program")
+        oc = diff.compile_recipe(recipe, cfg, optimize_obj=opt_obj)
         if oc.teal is None:
             if col:
                 col.cls("not-compiled")
@@ -171,6 +180,10 @@ def _configs(draw, recipe):
                     cfg["frame_pointers"] = fp
                 cfgs.append(cfg)
     cfgs.append({"version": vs[-1]})
+    # the optimiser-on variants once more, this time with an OptimizeOptions object that already compiled another program
+    for c in list(cfgs):
+        if c.get("scratch_slots") and c["version"] in (vs[0], vs[-1]):
+            cfgs.append(dict(c, reuse_options=True))
     return cfgs
 
 
@@ -181,7 +194,10 @@ def case_strategy(draw, tier):
     else:
         recipe = draw(gen_sub.sub_recipe(max_budget=BUDGET[tier]))
     ctxs = [draw(gen.one_context(recipe["mode"])) for _ in range(3)]
-    return {"recipe": recipe, "ctxs": [c.to_json() for c in ctxs], "configs": _configs(draw, recipe)}
+    # a small unrelated program with user-numbered, dynamically indexed and shared slots (non-empty optimiser skip set)
+    prior = {"mode": recipe["mode"], "level": 5, "vars": {"pa": {"t": "U", "slot": draw(st.integers(0, 255))}, "pb": {"t": "U", "slot": None}, "pd": {"t": "U", "slot": None, "kind": "dyn"}},
+             "routines": [], "main": ["seq", [["store", "pa", ["int", 1]], ["store", "pb", ["int", 2]], ["dsetidx", "pd", "pb"], ["dstore", "pd", ["int", 3]], ["nary", "Add", [["load", "pa"], ["dload", "pd", "U"]]]]]}
+    return {"recipe": recipe, "prior": prior, "ctxs": [c.to_json() for c in ctxs], "configs": _configs(draw, recipe)}
 
 
 def shard(tier, seedv, k, n, col: Collector):
